@@ -320,3 +320,63 @@ Proof.
     eapply circular_from_false; eassumption.
   - exfalso. eapply circular_from_terminates. exact Hc.
 Qed.
+
+(** ** the validity rules of one declared key, declaratively *)
+Definition fk_valid (s : fschema) (d : fkdecl) : Prop :=
+  exists ft tg,
+    nth_error (fs_types s) (fk_from d) = Some ft /\ In (fk_attr d) (ft_attrs ft) /\ In (fk_attr d) (ft_pkey ft) /\
+    nth_error (fs_types s) (fk_to d) = Some tg /\ In (fk_toattr d) (ft_attrs tg) /\ ft_pkey tg = [fk_toattr d].
+
+Lemma nmem_In a l : nmem a l = true <-> In a l.
+Proof.
+  unfold nmem. rewrite existsb_exists. split.
+  - intros (x & Hx & E). apply Nat.eqb_eq in E. subst. exact Hx.
+  - intros H. exists a. split; [exact H|apply Nat.eqb_refl].
+Qed.
+
+(** [_setupForeignKeys] accepts a key exactly when: its attribute exists in its own type and
+    belongs to that type's primary key, the target type exists, the target attribute exists
+    there and is that type's (single-attribute) primary key *)
+Theorem fk_check_exact s d : fk_check s d = None <-> fk_valid s d.
+Proof.
+  unfold fk_check, fk_valid. split.
+  - destruct (nth_error (fs_types s) (fk_from d)) as [ft|] eqn:Hf; [|discriminate].
+    destruct (nmem (fk_attr d) (ft_attrs ft)) eqn:Ha; cbn [negb]; [|discriminate].
+    destruct (nmem (fk_attr d) (ft_pkey ft)) eqn:Hp; cbn [negb]; [|discriminate].
+    destruct (nth_error (fs_types s) (fk_to d)) as [tg|] eqn:Ht; [|discriminate].
+    destruct (nmem (fk_toattr d) (ft_attrs tg)) eqn:Hta; cbn [negb]; [|discriminate].
+    destruct (ft_pkey tg) as [|p [|q r]] eqn:Hk; try discriminate.
+    destruct (Nat.eqb_spec p (fk_toattr d)) as [->|]; [|discriminate].
+    intros _. exists ft, tg. rewrite <- !nmem_In. repeat split; auto.
+  - intros (ft & tg & -> & Ha & Hp & -> & Hta & Hk).
+    apply nmem_In in Ha, Hp, Hta. rewrite Ha, Hp, Hta, Hk. cbn. rewrite Nat.eqb_refl. reflexivity.
+Qed.
+
+(** ** acceptance is exact: a schema's foreign keys are accepted iff every declared key is
+    valid and the graph has no cycle *)
+Theorem schema_check_exact s :
+  schema_check s = Accepted <-> (forall d, In d (fs_fks s) -> fk_valid s d) /\ ~ has_cycle (fs_fks s).
+Proof.
+  split.
+  - intros Hacc.
+    assert (Hall : forall d, In d (fs_fks s) -> fk_check s d = None).
+    { unfold schema_check in Hacc.
+      destruct (flat_map _ (fs_fks s)) eqn:Hfm; [|discriminate].
+      intros d Hd. destruct (fk_check s d) as [e|] eqn:He; [|reflexivity].
+      exfalso. assert (Hin : In e (flat_map (fun d => match fk_check s d with Some e => [e] | None => [] end) (fs_fks s))).
+      { apply in_flat_map. exists d. split; [exact Hd|]. rewrite He. left; reflexivity. }
+      rewrite Hfm in Hin. destruct Hin. }
+    split.
+    + intros d Hd. apply fk_check_exact. auto.
+    + intros Hc. rewrite (cyclic_always_circular s Hc Hall) in Hacc. discriminate.
+  - intros [Hv Hac].
+    pose proof (acyclic_never_circular s Hac) as H1. pose proof (check_always_decides s) as H2.
+    unfold schema_check in *.
+    assert (Hnil : flat_map (fun d => match fk_check s d with Some e => [e] | None => [] end) (fs_fks s) = []).
+    { assert (Hgen : forall l, (forall d, In d l -> fk_check s d = None) ->
+                flat_map (fun d => match fk_check s d with Some e => [e] | None => [] end) l = []).
+      { induction l as [|x l IH]; intros Hl; [reflexivity|]. cbn. rewrite (Hl x (or_introl eq_refl)). cbn.
+        apply IH. intros d Hd. apply Hl. right; exact Hd. }
+      apply Hgen. intros d Hd. apply fk_check_exact. auto. }
+    rewrite Hnil in *. destruct (circular_from _ _ _) as [[|]|]; congruence.
+Qed.
